@@ -22,7 +22,7 @@ import copy
 
 from ..leanclient import hx  # noqa: F401  (kept for symmetry with other modules)
 
-TRANSLATORS = []
+TRANSLATORS = ["order"]
 
 MANIFEST = {
     "text": "Proof: Tls.Order.step/feed/run/hsRun (hand-written Lean model of the receive automaton induced by the _getMsg call "
@@ -47,6 +47,13 @@ MANIFEST = {
             "as pieces (whole / head / tail of a handshake message) with the defragmenter, the TLS 1.3 interleaving rule, the "
             "alignment checks of _getMsg and of the first hello, and the <=1.2 check in _getFinished, and whenever read keys "
             "change nothing is buffered and the triggering message ends its record (no_message_spans_key_change, all versions); "
+            "TIE BY REGENERATION: translate/gen_order.py rewrites lean/TlsModel/Gen/Order.lean on every run from the AST of "
+            "tlsconnection.py / tlsrecordlayer.py (every _getMsg with its expected types, the variables holding such types, the "
+            "guards as named atoms, sends, key changes, defragmenter checks, order-level _sendErrors, readAsync's dispatch, "
+            "_getMsg's aligned types; unknown shapes are poison) and the kernel decides for all valid configurations that the "
+            "transcribed flows complete on exactly the grammar's sentences, admit no type the grammar forbids, guard every "
+            "key change and match the automaton's post-handshake dispatch (gen_expectations_match_grammar, "
+            "gen_no_extra_type_admitted, gen_key_change_guarded, gen_post_dispatch_matches); "
             "regression theorems pin the "
             "order defects this check found (server took a client NewSessionTicket, server dropped a mid-handshake ClientHello, "
             "client NewSessionTicket leniency both ways). Tie: single (quick) and additionally double (thorough) deviations of "
@@ -1583,7 +1590,7 @@ def run(ctx):
                        "RFC grammar oracle: harness/props/c06.py:rfc_regex (NewSessionTicket iff session_ticket extension, RFC 5077 3.3)"]
     rng = ctx.rng
     thorough = ctx.thorough()
-    budget = 1150.0 if thorough else 105.0
+    budget = 1150.0 if thorough else 90.0
     t0 = time.time()
     pending = []
     scns = sorted(all_scenarios(), key=lambda sm: not sm[1])      # main configurations first
